@@ -585,7 +585,13 @@ fn scenarios(dir: &Path, tier: Tier) -> Vec<Scenario> {
 	v.push(read_range_scenario(dir, "read_range 2 threads 1 MiB ranges", vec![vec![(0, 1 << 20)], vec![((1 << 20) + 7, (1 << 20) + 1)]], None));
 	v.push(read_range_scenario(dir, "read_range 2 threads 2 MiB+ ranges", vec![vec![(3, (2 << 20) + 5)], vec![(2 << 20, (3 << 20) + 100)]], None));
 	v.push(read_range_scenario(dir, "read_range 2 threads read_all-sized and tail", vec![vec![(0, PATTERN_LEN)], vec![(PATTERN_LEN - 10, 10)]], None));
+	// runs of adjacent small ranges (how a directory or an index is scanned) in different 64 KiB regions of the file,
+	// and a run that continues where another thread's run ended
+	v.push(read_range_scenario(dir, "read_range 2 threads x runs of adjacent ranges", vec![vec![(0, 100), (100, 100), (200, 50)], vec![(70000, 64), (70064, 64), (70128, 64)]], None));
+	v.push(read_range_scenario(dir, "read_range 2 threads x runs of adjacent 4 KiB ranges", vec![vec![(4096, 4096), (8192, 4096), (12288, 4096)], vec![(200000, 4096), (204096, 4096)]], None));
+	v.push(read_range_scenario(dir, "read_range 2 threads, one continues the other's run", vec![vec![(1000, 24), (1024, 24)], vec![(1048, 24), (1024, 24), (1048, 8)]], None));
 	v.push(read_range_scenario(dir, "read_range 3 threads", vec![vec![(0, 16)], vec![(20000, 16)], vec![(40000, 16)]], Some(2)));
+	v.push(read_range_scenario(dir, "read_range 3 threads x runs of adjacent ranges", vec![vec![(0, 32), (32, 32)], vec![(66000, 32), (66032, 32)], vec![(140000, 32), (140032, 32)]], Some(2)));
 	if tier == Tier::Thorough {
 		v.push(read_range_scenario(dir, "read_range 3 threads x 2 calls", vec![vec![(0, 16), (50, 16)], vec![(20000, 16), (0, 16)], vec![(40000, 16), (20000, 4)]], Some(2)));
 		v.push(read_range_scenario(dir, "read_range 4 threads", vec![vec![(0, 16)], vec![(20000, 16)], vec![(40000, 16)], vec![(60000, 16)]], Some(2)));
@@ -636,6 +642,20 @@ fn free_running_sample(dir: &Path) -> (u64, u64) {
 					}
 				}
 				total.fetch_add(1, Ordering::Relaxed);
+			}
+			// sequential scan: adjacent ranges of 1..4096 bytes, every thread in a region of its own
+			let mut o = t * 150_001;
+			for i in 0..400u64 {
+				let l = [7u64, 64, 512, 4096, 1, 1000][(i % 6) as usize];
+				let want: Vec<u8> = (o..o + l).map(pattern).collect();
+				match rt.block_on(reader.read_range(&ByteRange::new(o, l))) {
+					Ok(b) if b.as_slice() == want.as_slice() => {}
+					_ => {
+						mism.fetch_add(1, Ordering::Relaxed);
+					}
+				}
+				total.fetch_add(1, Ordering::Relaxed);
+				o += l;
 			}
 		}));
 	}
